@@ -9,7 +9,7 @@ from . import common as cm
 
 RS = [1, 2, 3, 8]
 CS = [1, 2, 3, 4, 5, 6, 12]
-CONC = [(0.001, 10, 10), (0.01, 10, 20), (0.3, 30, 30), (1, 100, 100), (5, 10, 500), (5, 10, 10), (1, 123, 123), (0.2, 1, 1), (0.2, 1, 10), (1, 10, 12), (1, 1e10, 1e10), (0.5, 2e8, 1e9), (10, 10, 30), (5, 5.5, 16)]
+CONC = [(0.001, 10, 10), (0.01, 10, 20), (0.3, 30, 30), (1, 100, 100), (5, 10, 500), (5, 10, 10), (1, 123, 123), (0.2, 1, 1), (0.2, 1, 10), (1, 10, 12), (1, 1e10, 1e10), (0.5, 2e8, 1e9), (10, 10, 30), (5, 5.5, 16), (1e-4, 1e12, 1e12)]
 VMAX = [100, 500, 1000, "ramp", 150.5, 99.75, "down"]
 MINT = [1, 2.5, 10, 10.25, 20, 50]
 
@@ -25,8 +25,8 @@ def vmax_of(v, C):
 class Harness(cm.BaseB):
     id = "C14"
     rule = (
-        "complete grid R {1,2,3,8} x C {1,2,3,4,5,6,12} x mode {log,linear} x 14 (xmin,xmax,stock) triples (xmin = xmax, ranges up to "
-        "ten orders of magnitude) x vmax {100, 500, 1000, per-column ramp, 150.5, 99.75, one large column followed by small ones} x min_transfer {1,2.5,10,10.25,20,50} = 32928 "
+        "complete grid R {1,2,3,8} x C {1,2,3,4,5,6,12} x mode {log,linear} x 15 (xmin,xmax,stock) triples (xmin = xmax, ranges up to "
+        "ten orders of magnitude) x vmax {100, 500, 1000, per-column ramp, 150.5, 99.75, one large column followed by small ones} x min_transfer {1,2.5,10,10.25,20,50} = 35280 "
         "constructor calls (thorough adds R {4,16}, C {8,24}); concentrations compared at 1e-9 relative; "
         "every returned plan is re-derived from its instructions in exact arithmetic and executed with to_worklist on "
         "EvoWorklist and FluentWorklist x worklist max_volume {950,200} x destination plate yes/no x mix_repeat {0,2}, "
